@@ -292,7 +292,7 @@ func addEval(c *RunCtx, b *Batch, sp *EvalSpec) {
 func init() {
 	register(&PropDef{
 		ID:   "C01",
-		Rule: "random typed expression trees (all operator families and aliases, if, literals, lists, registered operators incl. zero-operand and failing ones, failing variables, wrong-typed operands, and/or with 0..127 operands) rendered to source, compiled with all optimisations disabled, evaluated under random bindings with a recording fetcher; Go's result/error and its ordered fetch/operator-call effects are compared with the reference semantics `sem` of the model (and the model's compile/run with Go's exported program); non-trivial = at least one effect or more than 3 nodes; distinct = distinct (source, config, binding)",
+		Rule: "random typed expression trees (all operator families and aliases, if, literals, lists, registered operators incl. zero-operand and failing ones, failing variables, wrong-typed operands, and/or with 0..127 operands) rendered to source, compiled with all optimisations disabled, evaluated under random bindings with a recording fetcher; Go's result/error and its ordered fetch/operator-call effects are compared with the reference semantics `sem` of the model (and the model's compile/run with Go's exported program); every Eval case is repeated through the library's own context (NewCtxFromVars) with the same values bound as int, int32, int8, uint8, uint64, []int, []int32; string variables against string literals and a string constant of the configuration; list-valued variables under in/overlap and as results; non-trivial = at least one effect or more than 3 nodes; distinct = distinct (source, config, binding)",
 		Assumptions: []string{"fetcher and registered operators are deterministic functions of their arguments (the harness's recording fetcher and test operators are)",
 			"errors are compared by class and identity of the user error, not by message text"},
 		Behav: []int{5, 2}, Fidelity: []int{3, 4, 8, 10, 15}, Ignore: []int{50, 1, 6, 7}, CodeText: evalCodeText,
@@ -534,7 +534,7 @@ func init() {
 	}
 	register(&PropDef{
 		ID:   "C04",
-		Rule: "random trees (incl. failing sub-expressions) x optimisation subsets x random available/unavailable splits x bindings, TryEval run with a truthful loading fetcher (Cached reports the split, Get would succeed for every variable) and compared with the tree-level meaning of TryEval `trysem` (outcome and fetch/call effects, so a read of an unavailable variable is visible); Eval on the full binding compared with `sem`; non-trivial = every case; distinct = distinct (source, config, binding, split)",
+		Rule: "random trees (incl. failing sub-expressions) x optimisation subsets x random available/unavailable splits x bindings, TryEval run with a truthful loading fetcher (Cached reports the split, Get would succeed for every variable) and compared with the tree-level meaning of TryEval `trysem` (outcome and fetch/call effects, so a read of an unavailable variable is visible); Eval on the full binding compared with `sem`; the library's own contexts (variables registered after the context was built, registered variables that are not supplied, nil-bound variables, a far key forcing the name-indexed fetcher); expressions whose registered operator evaluates the SAME compiled expression for a parent context (re-entrant TryEval/Eval); non-trivial = every case; distinct = distinct (source, config, binding, split)",
 		Assumptions: []string{"the fetcher reports availability truthfully"},
 		Behav:       []int{7, 5, 2, 16}, Fidelity: []int{3, 6, 4, 8, 10, 15}, Ignore: []int{50, 1}, CodeText: evalCodeText,
 		Gen:         tryGen("C04", true),
@@ -548,7 +548,7 @@ func init() {
 	})
 	register(&PropDef{
 		ID:   "C12",
-		Rule: "random trees x optimisation subsets x {ReportEvent, Debug} x {Eval, TryEval}: the OP_EXEC/LOOP events read from a buffered channel after the call returned (a retaining consumer) are compared with the model's observation stream (operator name, fast flag, arguments at call time, result or error; LOOP position, node and stack snapshot); Dump, Eval and TryEval results compared directly with the same source compiled without the event options; non-trivial = at least one OP_EXEC event; distinct = distinct (source, config, binding)",
+		Rule: "random trees x optimisation subsets x {ReportEvent, Debug} x {Eval, TryEval}: the OP_EXEC/LOOP events read from a buffered channel after the call returned (a retaining consumer) are compared with the model's observation stream (operator name, fast flag, arguments at call time, result or error; LOOP position, node and stack snapshot); Dump, Eval and TryEval results compared directly with the same source compiled without the event options (a quarter of the cases with BOTH options); a program of exactly 16384 real nodes with and without events; non-trivial = at least one OP_EXEC event; distinct = distinct (source, config, binding)",
 		Assumptions: []string{"events are consumed from a channel with enough capacity, after the evaluation returned (consumer timing: retained); synchronous consumers are exercised by C07's concurrent runs"},
 		Behav:       []int{5, 7, 2, 14}, Fidelity: []int{3, 4, 6, 8, 10, 15}, Ignore: []int{50, 1}, CodeText: evalCodeText,
 		Gen: func(c *RunCtx) []*Batch {
